@@ -75,14 +75,17 @@ Poll(win, val, ack, got) ==
               resp |-> DataResp(PidOf(toggle), Wire(val))]
     /\ UNCHANGED conf
 
-(* Bus traffic that does not concern the endpoint: a token that is not an IN token for it (other  *)
-(* endpoint, other device address, OUT/SETUP to this endpoint number) - possibly a complete IN    *)
-(* transaction of another device on the same bus, closed by the host ACK meant for that device    *)
-(* (ack = TRUE) - or a SOF.  The endpoint stays silent; nothing changes.                          *)
-Other(tpid, addr, ep, ack) ==
+(* Bus traffic that does not concern the endpoint: a token that is not an IN token for it - for   *)
+(* another endpoint of the same device, for another device address, OUT/SETUP to this endpoint    *)
+(* number - possibly a complete transaction: an IN transaction answered by that other endpoint    *)
+(* or device and closed by the host ACK meant for *that* answer (ack = TRUE), or an OUT/SETUP     *)
+(* token followed by the host's data packet (hd = TRUE); or a SOF.  This endpoint stays silent    *)
+(* and nothing changes - in particular an answer of ours that is still unacknowledged stays so.   *)
+Other(tpid, addr, ep, ack, hd) ==
     /\ ~ForUs(tpid, addr, ep)
-    /\ ack => (tpid = "IN" /\ addr # DevAddr)
-    /\ ev' = [e |-> "tok", pid |-> tpid, addr |-> addr, ep |-> ep, ack |-> ack, resp |-> NoResp]
+    /\ ack => tpid = "IN"
+    /\ hd => tpid \in {"OUT", "SETUP"}
+    /\ ev' = [e |-> "tok", pid |-> tpid, addr |-> addr, ep |-> ep, ack |-> ack, hd |-> hd, resp |-> NoResp]
     /\ UNCHANGED <<conf, sig, toggle, pending, latchedLog, hostToggle, hostLog>>
 
 SofEvent == /\ ev' = [e |-> "sof"]
